@@ -5,7 +5,7 @@
     JSON value stands for a YANG data tree, when a decoded value meets it). *)
 From Coq Require Import ZArith List Bool Strings.Byte.
 From YV Require Import Val.Model Tree.Schema Tree.Export Tree.JStr Tree.JStrProofs Tree.JsonSpec Tree.JsonSpecProofs
-  Tree.JsonNumProofs Tree.JsonLexProofs Tree.JsonExp Tree.JsonW Tree.JsonWProofs.
+  Tree.JsonNumProofs Tree.JsonLexProofs Tree.JsonExp Tree.JsonW Tree.JsonWProofs Tree.JsonTotal.
 Import ListNotations.
 Open Scope Z_scope.
 
@@ -64,6 +64,15 @@ Theorem C15_writer_canonical : forall fmt_float idmod cfg st e,
   exists ts, wstart cfg fmt_float idmod st = Some ts /\ normalize ts = toks_of (conc fmt_float e).
 Proof. exact writer_canonical. Qed.
 Print Assumptions C15_writer_canonical.
+
+(** such a value exists, and the writer returns without error, for every exported tree shaped like
+    its schema that mentions only identities the schema knows ([start_ok]) - whatever the schema,
+    configuration and start selection *)
+Theorem C15_writer_total : forall fmt_float idmod cfg st,
+  start_ok idmod st = true ->
+  (exists e, estart cfg idmod st = Some e) /\ (exists ts, wstart cfg fmt_float idmod st = Some ts).
+Proof. exact writer_total_both. Qed.
+Print Assumptions C15_writer_total.
 
 (** ... hence it is derivable in the RFC 8259 grammar, parses as exactly one value with nothing
     after it, and that value meets the expectation: every name, every container/list/leaf-list
